@@ -323,7 +323,7 @@ impl RdbEngine {
                             }
                         }
                         Value::SortedSet(skiplist) => {
-                            let items = skiplist.range_by_rank(0, skiplist.len() - 1).items;
+                            let items = skiplist.get_all_items();
                             self.write_length(&mut buffer, items.len())?;
                             for (member, score) in items {
                                 self.write_length(&mut buffer, member.len())?;
@@ -631,17 +631,14 @@ impl<W: Write> RdbWriter<W> {
                 self.write_byte(RdbOpcode::ZSet as u8)?;
                 self.write_string(key)?;
                 
-                // Get all items and write them
-                let len = skiplist.len();
+                // Materialise the members once, so that the count written is the
+                // number of members that follow even if the set changes meanwhile
+                let items = skiplist.get_all_items();
+                let len = items.len();
                 self.write_length(len)?;
                 
                 #[cfg(feature = "verif")]
                 crate::verif::RDB_HOLD.reach("zset-len-range", key, &|| vec![key.to_vec()]);
-                
-                // Note: This is a suboptimal approach since we need to materialize
-                // all members in memory. A better approach would be to have a streaming
-                // iterator in the SkipList implementation.
-                let items = skiplist.range_by_rank(0, len - 1).items;
                 
                 for (member, score) in items {
                     self.write_string(&member)?;
